@@ -48,7 +48,7 @@ m = {
  },
  "engines": [
   {"name": "lockstep", "path": "harness/src/lockstep.rs", "serves_properties": [i for i in ids if i in ("C01","C02","C03","C04","C05","C06","C08","C09","C10","C11","C13","C14","C15","C16","C17","C18","C19","C20")], "kind_free_text": "E1/E2: proptest-generated (config x op sequence) cases executed in lock-step on a parked sync/async cache and on a reference model, virtual clock by clock_gettime interposition"},
-  {"name": "component", "path": "harness/src/comp.rs", "serves_properties": ["C07","C13","C14","C17","C18"], "kind_free_text": "E4: proptest generators driving the crate-private estimators and the policy through the verif facade"},
+  {"name": "component", "path": "harness/src/comp.rs", "serves_properties": ["C03","C04","C07","C09","C13","C14","C16","C17","C18","C20"], "kind_free_text": "E4: proptest generators driving the crate-private estimators and the policy through the verif facade; E4b: generated quiescent histories on caches of six value types (unit type to heap values) built with default everything, against an exact map"},
   {"name": "stress", "path": "harness/src/stress.rs", "serves_properties": ["C01","C02","C05","C06","C08","C09","C10","C11","C12","C13","C15","C17","C19","C20"], "kind_free_text": "E3: generated multi-thread scripts against caches with real workers (sync, tokio mt/ct, async-std, thread-per-task), in child processes; kinds Invariants, Barrier, WaitRace, Close, Config, Reclaim, Validated; history invariants inline and at quiescence, state evidence for hangs"},
   {"name": "fuzz", "path": "fuzz/", "serves_properties": ["C01","C02","C03","C04","C05","C06","C07","C08","C09","C11","C13","C14","C15","C16","C17","C18"], "kind_free_text": "E5: cargo-fuzz/libFuzzer targets `lockstep` and `estimators` behind hand-written arbitrary::Unstructured decoders, oracle inside the target, run by the thorough tier (VERIF_FUZZ_SECS, default 90 s)"},
  ],
